@@ -128,7 +128,16 @@ class Worker(threading.Thread):
         if kind == 'read':
             return True, Config.instance()
         if kind == 'create_inverse':
-            return True, _spd().I
+            # ev[1]: operator to invert (None: a fresh one); ev[2]: which spelling of "lazy inverse"
+            op = ev[1] if len(ev) > 1 and ev[1] is not None else _spd()
+            how = ev[2] if len(ev) > 2 else 0
+            if how == 1:
+                return True, op.inverse()
+            if how == 2:
+                from furax._base.core import InverseOperator
+
+                return True, InverseOperator(op)
+            return True, op.I
         if kind == 'apply_inverse':
             import jax.numpy as jnp
 
@@ -297,7 +306,15 @@ class History:
             st = w.call('read')
             self._check_state(st, stack[-1], 'active-config', f'thread {t} at depth {len(stack) - 1}')
         elif kind == 'create_inverse':
-            op = w.call('create_inverse')
+            # the same operator object may be inverted again and again, under different configurations and from
+            # different threads: every inverse captures the configuration active at ITS creation
+            which, how = (arg or [0, 0])
+            if which and not hasattr(self, 'shared_ops'):
+                self.shared_ops = [_spd(), _spd()]
+            target = self.shared_ops[which - 1] if which else None
+            if which:
+                self.shared_inversions = getattr(self, 'shared_inversions', 0) + 1
+            op = w.call('create_inverse', target, how)
             self.inverses.append((op, dict(stack[-1]), t, len(stack) - 1, list(stack)))
         elif kind == 'apply_inverse':
             if not self.inverses:
@@ -406,6 +423,8 @@ class History:
             c.append('inverse_applied_outside_its_block')
         if self.inverses:
             c.append('inverse_created')
+        if getattr(self, 'shared_inversions', 0) >= 2:
+            c.append('same_operator_inverted_again')
         if self.switches_with_two_open >= 2:
             c.append('interleaved_open_blocks')
         if any(s[0] == 'copied_context' for s in self.steps):
@@ -508,12 +527,12 @@ def custom_run(ctx, examples, budget):
         def read(self, t):
             self._do('read', t)
 
-        @rule(t=st.integers(0, 2))
-        def create_inverse(self, t):
-            if len(self.h.inverses) < 4:
-                self._do('create_inverse', t)
+        @rule(t=st.integers(0, 2), which=st.sampled_from([0, 1, 1, 2]), how=st.sampled_from([0, 0, 1, 2]))
+        def create_inverse(self, t, which, how):
+            if len(self.h.inverses) < 6:
+                self._do('create_inverse', t, [which, how])
 
-        @rule(t=st.integers(0, 2), i=st.integers(0, 3))
+        @rule(t=st.integers(0, 2), i=st.integers(0, 5))
         def apply_inverse(self, t, i):
             if self.h.inverses:
                 self._do('apply_inverse', t, i)
